@@ -43,28 +43,30 @@ def run_one(mod, run_seed, replay=None, lenient=False, keep_trace=False, variant
     gc.disable()
     t0 = time.perf_counter()
     info = None
-    try:
+    def body(s):
         try:
-            info = sim.run(lambda s: mod.scenario(s))
-        finally:
-            pass
+            return mod.scenario(s)
+        except (SimDeadlock, SimBudget) as e:
+            # classify while the tasks are still parked (their stacks are gone after shutdown)
+            if hasattr(mod, "on_hang"):
+                try:
+                    hv = mod.on_hang(s, e)
+                except Exception:
+                    hv = None
+                    res["on_hang_error"] = traceback.format_exc()
+                if hv is not None:
+                    raise hv
+            raise
+
+    try:
+        info = sim.run(body)
     except Violation as v:
         res.update(status="violation", fingerprint=list(v.fingerprint), message=v.message,
                    details=v.details)
     except ReplayDiverged as e:
         res.update(status="diverged", message=str(e))
     except (SimDeadlock, SimBudget) as e:
-        hv = None
-        if hasattr(mod, "on_hang"):
-            try:
-                hv = mod.on_hang(sim, e)
-            except Exception:
-                hv = None
-        if hv is not None:
-            res.update(status="violation", fingerprint=list(hv.fingerprint),
-                       message=hv.message, details=hv.details)
-        else:
-            res.update(status="error", message="unclassified hang: %s" % (e,))
+        res.update(status="error", message="unclassified hang: %s" % (e,))
     except core.SimAbort:
         res.update(status="error", message="SimAbort escaped")
     except Exception as e:
